@@ -203,7 +203,7 @@ static bool num(const std::string &s, long &v) {
 
 // fill [off, off+len) of slot k with the pattern of `seed`, through the real copyFrom
 static void writeSlot(Slot &s, long off, long len, long seed) {
-  std::vector<unsigned char> b(len > 0 ? len : 0);
+  std::vector<unsigned char> b(len > 0 ? len : 1);   // never hand a null pointer to copyFrom
   for (long i = 0; i < len; ++i) b[i] = pat(seed, i);
   s.mem.copyFrom(b.data(), len, off);
   for (long i = 0; i < len; ++i) s.fam->shadow[s.delta + off + i] = b[i];
@@ -293,7 +293,7 @@ static std::string step(const std::vector<std::string> &t) {
                && slotLive(a) && b >= 0 && c >= 0) {
       if (b + c > slots[a].size) {
         // out of range: must be rejected; do not touch the shadow
-        std::vector<unsigned char> tmp(c);
+        std::vector<unsigned char> tmp(c > 0 ? c : 1);
         slots[a].mem.copyFrom(tmp.data(), c, b);
         hp::oracle("copyFrom beyond the end of a memory object was accepted");
         res = "ok";
@@ -314,8 +314,9 @@ static std::string step(const std::vector<std::string> &t) {
         res = "ok";
       }
     } else if (op == "mallocsrc" && t.size() == 4 && num(t[1], a) && num(t[2], b) && num(t[3], c) && slotFree(a) && b >= 0) {
-      std::vector<unsigned char> src(b);
+      std::vector<unsigned char> src(b > 0 ? b : 1);
       for (long i = 0; i < b; ++i) src[i] = pat(c, i);
+      src.resize(b);
       occa::memory m = dev.malloc<void>(b, (const void*) src.data());
       if (!m.isInitialized()) res = "empty";
       else {
